@@ -1,8 +1,9 @@
 import Gossamer.Base.Proto
 import Gossamer.Model.C33
+import Gossamer.Lib.C33Stream
 open Gossamer Gossamer.Scale Gossamer.C33
 
-/- line:   `dec <kind> <hex>` | `alloc <kind> <hex>` | `const <name>`
+/- line:   `dec <kind> <hex>` | `alloc <kind> <hex>` | `stream <max> <buflen> <chunk> <hex>` | `const <name>`
    output: `ok <dump> re=<hex of the re-encoded message> rt=<1|0>` | `err` | `panic`, on `alloc` lines
            followed by ` a=ok|big` (model allocation counter against the linear budget).  Where the
            allocation is above the budget the property is violated: `spec=… a=ok`, `kf=bytes-alloc`. -/
@@ -55,12 +56,20 @@ def showMsg (k : Kind) : Msg → String
     let mx := match m.max with | none => "none" | some n => s!"some({n})"
     s!"({m.requestedData},{from_},{m.direction},{mx})"
   | .blockResp ds => "[" ++ ",".intercalate (ds.map showBlock) ++ "]"
+  | .stateReq b st np =>
+    s!"(x{hex b},[{",".intercalate (st.map (fun e => "x" ++ hex e))}],{if np then "t" else "f"})"
+  | .stateResp es proof =>
+    let showE (e : KVEntry) : String :=
+      let kvs := ",".intercalate (e.entries.map (fun kv => s!"(x{hex kv.1},x{hex kv.2})"))
+      s!"(x{hex e.root},[{kvs}],{if e.complete then "t" else "f"})"
+    s!"([{",".intercalate (es.map showE)}],x{hex proof})"
 
 def parseKind : String → Option Kind
   | "ba" => some .ba | "bah" => some .bah | "tx" => some .tx | "txh" => some .txh
   | "cons" => some .cons | "lreq" => some .lreq | "lresp" => some .lresp | "warp" => some .warp
   | "breq" => some .breq | "bresp" => some .bresp | "body" => some .body
   | "gmsg" => some .gmsg | "ghs" => some .ghs
+  | "sreq" => some .sreq | "sresp" => some .sresp | "wproof" => some .wproof
   | _ => none
 
 def outcome (k : Kind) (bs : Bytes) : String :=
@@ -68,14 +77,29 @@ def outcome (k : Kind) (bs : Bytes) : String :=
   | .err => "err"
   | .panic => "panic"
   | .ok m =>
-    let enc := encode k m
-    let rt := decode k enc == .ok m
-    s!"ok {showMsg k m} re={hex enc} rt={if rt then 1 else 0}"
+    if k = .sresp then s!"ok {showMsg k m} re=err"          -- StateResponse has no Encode
+    else
+      let enc := encode k m
+      let rt := decode k enc == .ok m
+      s!"ok {showMsg k m} re={hex enc} rt={if rt then 1 else 0}"
+
+/-- `stream <maxSize> <bufLen> <chunk> <hex>`: one `readStream` on a stream holding the bytes -/
+def streamOutcome (maxSize bufLen chunk : Nat) (s : Bytes) : String :=
+  let r := readStream maxSize bufLen chunk s
+  if r.panic then "panic"
+  else
+    let e := match r.err with
+      | none => "nil" | some .eof => "eof" | some .leb => "leb" | some .max => "max" | some .short => "short"
+    s!"tot={r.tot} err={e} msg={hex r.msg} buflen={r.bufLen} rest={r.rest.length}"
 
 def step (line : String) : String :=
   match words line with
   | ["const", "MaxBlocksInResponse"] => "128"
   | ["const", "MaxBlockResponseSize"] => "16777216"
+  | ["stream", m, l, c, h] =>
+    match m.toNat?, l.toNat?, c.toNat?, ofHex? h with
+    | some maxSize, some bufLen, some chunk, some bs => streamOutcome maxSize bufLen chunk bs
+    | _, _, _, _ => "bad-op"
   | ["dec", k, h] =>
     match parseKind k, ofHex? h with
     | some kind, some bs => outcome kind bs
